@@ -11,33 +11,40 @@ from whoosim.kernel import HarnessError
 class SimLock(object):
     """threading.Lock look-alike."""
 
-    def __init__(self, kernel):
+    def __init__(self, kernel, name=""):
         self._k = kernel
         self._owner = None
+        self.name = name
 
     def acquire(self, blocking=True, timeout=-1):
         k = self._k
-        k.event("lock.acquire")
+        k.event("lock.acquire", self.name)
         if self._owner is None:
             self._owner = k.current
+            k.post_event("locked", self.name)
             return True
+        k.count("simlock_contended")
         if not blocking:
             return False
         k.count("simlock_blocked")
+        if "WRITELOCK" in self.name:
+            k.count("writelock_blocking_wait")
         ok = k.block_until(lambda: self._owner is None,
                            timeout=None if timeout is None or timeout < 0 else timeout,
                            desc="Lock")
         if not ok:
             return False
         self._owner = k.current
+        k.post_event("locked", self.name)
         return True
 
     def release(self):
         k = self._k
-        k.event("lock.release")
+        k.event("lock.release", self.name)
         if self._owner is None:
             raise RuntimeError("release unlocked lock")
         self._owner = None
+        k.post_event("unlocked", self.name)
 
     def locked(self):
         return self._owner is not None
